@@ -167,6 +167,8 @@ class DefUse:
             proj = p.get('p') or []
             if not proj or proj[0] != '*':
                 return p
+            if self.body.locals[p['l']].get('name'):
+                return p
             d = self.single_def(p['l'])
             if d is None or d[1] == 't' or d[2]['k'] != 'assign':
                 return p
@@ -574,3 +576,53 @@ def leaking_exits(F, body, acquire_block, release_blocks, absent_edges):
             out.append({'label': lab, 'what': what, 'block': w, 'loc': body.loc(body.term(w)),
                         'path': render_path(body, [acquire_block] + (head or []) + tail[1:])})
     return out
+
+
+# ---------------------------------------------------------------- argument identity
+def operand_name(body, du, o, depth=10):
+    """User-visible name of the variable an operand is a copy/borrow of, following
+    single-definition temporaries; for field places `base.field`. None if unknown."""
+    if 'cp' not in o and 'mv' not in o:
+        if 'cdef' in o:
+            return 'const ' + o['cdef']
+        if 'c' in o:
+            return 'const ' + str(o['c'])
+        return None
+    p = operand_place(o)
+    for _ in range(depth):
+        p = du.deref_origin(p)
+        if not is_plain(p):
+            break
+        nm = body.locals[p['l']].get('name')
+        if nm:
+            break
+        d = du.single_def(p['l'])
+        if d is None or d[1] == 't' or d[2]['k'] != 'assign':
+            break
+        rv = d[2]['rv']
+        if rv['k'] == 'use' and operand_place(rv['o']) is not None:
+            p = operand_place(rv['o'])
+        elif rv['k'] == 'ref':
+            p = rv['pl']
+        elif rv['k'] == 'use':
+            return operand_name(body, du, rv['o'], depth - 1)
+        else:
+            break
+    base = body.locals[p['l']].get('name') or '_%d' % p['l']
+    fields = [e['f'] for e in (p.get('p') or []) if isinstance(e, dict) and 'f' in e]
+    return '.'.join([base] + fields)
+
+
+def arg_names(body, du, t):
+    return [operand_name(body, du, a) for a in t['a']]
+
+
+def calls_with_arg_named(body, pats, name, du=None):
+    du = du or DefUse(body)
+    return [(b, t) for b, t in find_calls(body, pats) if name in arg_names(body, du, t)]
+
+
+def check_dominated(body, first, then):
+    """Sites in `then` ([(block, node)]) that are not dominated by any site in `first`."""
+    fb = {b for b, _ in first}
+    return [(b, n) for b, n in then if not any(f != b and body.dominates(f, b) for f in fb)]
